@@ -15,6 +15,7 @@ func init() { scenarios["C01"] = scenarioC01 }
 func failingProfile(t *Tape) *Profile {
 	pf := &Profile{MaxStmts: 8, MinFail: 1, MaxFail: 4, FatalPct: 70, PSkip: 15, PRepeat: 25, PCustom: 25, PCleanup: 15, PCtx: 10, PLog: 25, PGo: 5}
 	pf.RejectHeavy = t.Chance("pf.rejectheavy", 50)
+	pf.SiteStyles = true
 	if t.Chance("pf.customfail", 30) {
 		pf.CustomFail = 40
 	}
